@@ -240,6 +240,16 @@ def check_resample(t):
                 want = (a[i] + a[i + 1]) / 2
                 if not close(b[j], want, max(abs(a[i]), abs(a[i + 1]), 1e-6), rel=1e-9):
                     return f'resampling at the midpoint of points {i},{i + 1}: {f} = {b[j]!r}; linear interpolation gives {want!r}'
+    # the resampled values are a function of the requested TIMES, not of the dtype of the array that carries them:
+    # whole seconds handed over as int64 give what the same seconds give as float64 (round 17)
+    lo, hi = int(np.ceil(tm[0])) + 1, int(np.floor(tm[-1]))
+    if hi - lo >= 4:
+        ti = np.arange(lo, hi, max(1, (hi - lo) // 5), dtype=np.int64)
+        ri, rf = t.interpolate_time(ti), t.interpolate_time(ti.astype(float))
+        for f in pts:
+            a, b = np.asarray(getattr(rf, f), float), np.asarray(getattr(ri, f), float)
+            if a.shape != b.shape or not np.allclose(a, b, rtol=1e-12, atol=0, equal_nan=True):
+                return f'resampling at whole seconds {ti.tolist()} handed over as int64: {f} = {b.tolist()}; the same seconds as float64 give {a.tolist()}'
     return None
 
 
